@@ -60,7 +60,7 @@ def gen_fo(r, k):
     return {"kind": "fo", "Na": Na, "HH": HH, "F": F}
 
 
-def gen_sys(r, low_t=True):
+def gen_sys(r, low_t=True, composite=True):
     nmol = r.choice([2, 2, 3, 3, 4])
     mols = []
     for i in range(nmol):
@@ -74,8 +74,23 @@ def gen_sys(r, low_t=True):
     T = r.choice([77.0, 150.0, 200.0, 300.0, 300.0, 400.0]) if low_t else r.choice([200.0, 300.0, 400.0])
     if r.random() < 0.15:
         mols[1]["e"] = mols[0]["e"]                      # degenerate site energies
+    # composite baths: further components (overdamped with another correlation time, underdamped Brownian mode), put together
+    # either as a list of parameter sets or by in-place addition of CorrelationFunction objects
+    for m in mols:
+        if composite and r.random() < 0.6:
+            extra = []
+            for _ in range(r.choice([1, 1, 2])):
+                if r.random() < 0.6:
+                    extra.append({"ftype": "OverdampedBrownian", "reorg": r.choice([8.0, 20.0, 50.0]) * (0.5 + r.random()),
+                                  "cortime": r.choice([40.0, 150.0, 200.0])})
+                else:
+                    extra.append({"ftype": "UnderdampedBrownian", "reorg": r.choice([5.0, 15.0, 40.0]) * (0.5 + r.random()),
+                                  "freq": r.choice([120.0, 250.0, 500.0]), "gamma": r.choice([30.0, 60.0, 100.0])})
+            m["extra"] = extra
+            m["how"] = r.choice(["list", "add", "add_first"])
     dt = r.choice([1.0, 0.5])
-    window = 10.0 * max(m["cortime"] for m in mols) * r.choice([1.0, 1.5])      # the time axis resolves the bath: >= 10 correlation times
+    taus = [m["cortime"] for m in mols] + [x.get("cortime", 180.0) for m in mols for x in m.get("extra", [])]
+    window = 10.0 * max(taus) * r.choice([1.0, 1.5])      # the time axis resolves the bath: >= 10 correlation times
     return {"mols": mols, "coup": coup, "T": T, "Nt": int(window / dt), "dt": dt, "matsubara": r.choice([10, 10, 40])}
 
 
@@ -87,7 +102,10 @@ def gen_sd(r, k):
     else:
         p["freq"] = r.choice([100.0, 300.0, 800.0])
         p["gamma"] = r.choice([20.0, 50.0, 150.0])
-    return {"kind": "sd", "params": p, "Nt": r.choice([200, 500, 1001]), "dt": r.choice([1.0, 2.0, 0.5]), "dyadic": r.random() < 0.4}
+    mode = r.choice(["stored", "override", "override", "noT", "equal"])
+    treq = r.choice([t for t in [20.0, 77.0, 150.0, 300.0, 500.0] if t != p["T"]])
+    return {"kind": "sd", "params": p, "Nt": r.choice([200, 500, 1001, 3000, 3000]), "dt": r.choice([1.0, 2.0, 0.5]), "dyadic": r.random() < 0.4,
+            "mode": mode, "Treq": treq}
 
 
 # ------------------------------------------------------------------ exact kernels
@@ -160,8 +178,26 @@ def build(s):
     with qr.energy_units("1/cm"):
         for m in s["mols"]:
             mol = qr.Molecule([0.0, m["e"]])
-            cf = qr.CorrelationFunction(ta, dict(ftype="OverdampedBrownian", reorg=m["reorg"], cortime=m["cortime"], T=s["T"],
-                                                 matsubara=s["matsubara"]))
+            plist = [dict(ftype="OverdampedBrownian", reorg=m["reorg"], cortime=m["cortime"], T=s["T"], matsubara=s["matsubara"])]
+            for x in m.get("extra", []):
+                px = dict(x)
+                px["T"] = s["T"]
+                if px["ftype"] == "OverdampedBrownian":
+                    px["matsubara"] = s["matsubara"]
+                plist.append(px)
+            how = m.get("how", "list")
+            if len(plist) == 1:
+                cf = qr.CorrelationFunction(ta, plist[0])
+            elif how == "list":
+                cf = qr.CorrelationFunction(ta, plist)
+            elif how == "add":
+                cf = qr.CorrelationFunction(ta, plist[0])
+                for px in plist[1:]:
+                    cf += qr.CorrelationFunction(ta, px)
+            else:                                   # the first component is the one that is added last
+                cf = qr.CorrelationFunction(ta, plist[-1])
+                for px in plist[-2::-1]:
+                    cf += qr.CorrelationFunction(ta, px)
             mol.set_transition_environment((0, 1), cf)
             mols.append(mol)
         agg = qr.Aggregate(molecules=mols)
@@ -194,6 +230,25 @@ def ft_reference(w, lam, tc, kT, nm, dt, window):
     return full, tr, gerr
 
 
+def comp_reference(w, prm, kT, nm, dt, window):
+    """reference value, truncated-model value and numerical error estimate of the Fourier-transformed correlation function
+    of ONE component (parameters in internal units as stored in CorrelationFunction.params)"""
+    if prm["ftype"] == "OverdampedBrownian":
+        return ft_reference(w, float(prm["reorg"]), float(prm["cortime"]), kT, int(prm.get("matsubara", nm)), dt, window)
+    # underdamped Brownian mode: the time-domain data are the inverse FFT of (1+coth) J, so that the transform returns to it
+    lam, w0, g = float(prm["reorg"]), float(prm["freq"]), float(prm["gamma"])
+    J = 2.0 * lam * g * w0 * w0 * w / ((w * w - w0 * w0) ** 2 + w * w * g * g)
+    full = (1.0 + 1.0 / math.tanh(w / (2.0 * kT))) * J
+    peak = (1.0 + 1.0 / math.tanh(w0 / (2.0 * kT))) * 2.0 * lam * w0 / g
+    gerr = 1e-3 * abs(full) + 1e-4 * peak + 4.0 * peak * math.exp(-window * g / 2.0)
+    return full, full, gerr
+
+
+def site_components(cf):
+    prm = cf.params
+    return list(prm) if isinstance(prm, (list, tuple)) else [prm]
+
+
 def run_rf(chk, c, items, meta):
     import numpy
     import quantarhei as qr
@@ -212,6 +267,8 @@ def run_rf(chk, c, items, meta):
     S1 = numpy.linalg.inv(SS)
     chk.count("rf:N=%d" % (Na - 1))
     chk.count("rf:T=%g" % T)
+    for m in s["mols"]:
+        chk.count("rf:bath:" + ("single" if not m.get("extra") else m["how"] + ":" + "+".join(sorted(set(x["ftype"][:5] for x in m["extra"])))))
     what = "RedfieldRateMatrix (N=%d, T=%g K)" % (Na - 1, T)
     scale = float(numpy.abs(K).max()) + 1e-300
     # ---- monitors
@@ -238,11 +295,12 @@ def run_rf(chk, c, items, meta):
             if w > 1e-6:
                 ref, tol = 0.0, 0.0
                 for n in range(Na - 1):
-                    m = s["mols"][n]
-                    full, tr, gerr = ft_reference(w, m["reorg"] * cm2int, m["cortime"], kT, s["matsubara"], s["dt"], s["Nt"] * s["dt"])
                     geo = SS[n + 1, a] ** 2 * SS[n + 1, b] ** 2
-                    ref += geo * full
-                    tol += geo * (abs(full - tr) + 3.0 * gerr + 2e-3 * abs(full))
+                    # the FULL spectral density of site n: every component of its bath correlation function
+                    for prm in site_components(sbi.CC.get_correlation_function(n, n)):
+                        full, tr, gerr = comp_reference(w, prm, kT, s["matsubara"], s["dt"], s["Nt"] * s["dt"])
+                        ref += geo * full
+                        tol += geo * (abs(full - tr) + 3.0 * gerr + 2e-3 * abs(full))
                 tol += 1e-12 * scale        # rates between states mixed only at rounding level (|c_na c_nb| ~ 1e-14) are noise
                 if abs(K[b, a] - ref) > tol:
                     chk.violation("redfield:golden_rule", "%s: downhill rate K[%d,%d] = %r, golden-rule value %r, tolerance %r" %
@@ -280,6 +338,9 @@ def run_rf(chk, c, items, meta):
             val = Rd[b, b, a, a]
             if abs(val.imag) > 1e-12 * scale:
                 chk.violation("tensor:complex", "%s: R[%d,%d,%d,%d] = %r is not real" % (what, b, b, a, a, val), "monitor", c)
+            if abs(val.real - K[b, a]) > 2.0 * tol + 6e-3 * abs(ref):
+                chk.violation("tensor:rate_matrix", "%s: tensor element R[%d,%d,%d,%d] = %r differs from the rate-matrix element K[%d,%d] = %r" %
+                              (what, b, b, a, a, val.real, b, a, K[b, a]), "monitor", c)
             if abs(val.real - ref) > tol + 3e-3 * abs(ref):
                 chk.violation("tensor:golden_rule", "%s: tensor element R[%d,%d,%d,%d] = %r, golden-rule value %r, tolerance %r" %
                               (what, b, b, a, a, val.real, ref, tol + 3e-3 * abs(ref)), "monitor", c)
@@ -360,15 +421,27 @@ def run_sd(chk, c):
         ax = qr.FrequencyAxis(-nh * 2.0 ** -9, 2 * nh, 2.0 ** -9)
     else:
         ax = qr.TimeAxis(0.0, c["Nt"], c["dt"])
-    with qr.energy_units("1/cm"):
-        sd = qr.SpectralDensity(ax, p)
+    # how the temperature reaches the Fourier-transformed correlation function: stored in the parameters, stored but overridden
+    # by the temperature= argument, only given by the argument, stored and given again; judged against the REQUESTED temperature
+    mode = c.get("mode", "stored")
+    T0 = p["T"]
+    Tj = T0 if mode in ("stored", "equal") else c["Treq"]
+    targ = None if mode == "stored" else Tj
+    if mode == "noT":
+        del p["T"]
+
+    def make_sd():
+        with qr.energy_units("1/cm"):
+            return qr.SpectralDensity(ax, dict(p))
+    sd = make_sd()
     chk.count("sd:" + p["ftype"] + (":dyadic_axis" if c.get("dyadic") else ""))
+    chk.count("sd:temperature:" + mode)
     w = numpy.array(sd.axis.data)
     d = numpy.array(sd.data)
     n = len(w)
     what = "SpectralDensity(%s)" % p["ftype"]
     i0 = int(numpy.argmin(numpy.abs(w)))
-    if abs(w[i0]) > 1e-12:
+    if abs(w[i0]) > 1e-6 * abs(w[1] - w[0]):
         chk.violation("sd:axis", "%s: frequency axis has no zero point" % what, "monitor", c)
         chk.case(c, False)
         return
@@ -393,9 +466,9 @@ def run_sd(chk, c):
     dev = numpy.abs(d[ks] + d[mirror])
     if (dev > otol).any() or abs(d[i0]) > 1e-13 * sc + 4.0 * abs(w[i0]) * grad[i0]:
         chk.violation("sd:odd", "%s: J(-w) + J(w) up to %g (scale %g), J(0) = %r" % (what, dev.max(), sc, d[i0]), "monitor", c)
-    ft = sd.get_FTCorrelationFunction()
+    ft = sd.get_FTCorrelationFunction() if targ is None else sd.get_FTCorrelationFunction(temperature=targ)
     f = numpy.array(ft.data)
-    twokbt = 2.0 * kB_int * p["T"]
+    twokbt = 2.0 * kB_int * Tj
     pos = ks[w[ks] > 0]
     neg = 2 * i0 - pos
     e = numpy.exp(-w[pos] / (twokbt / 2.0))
@@ -406,8 +479,9 @@ def run_sd(chk, c):
     ref = (1e-9 * numpy.abs(f[pos]) + 4.0 * amp * asy * numpy.maximum(grad[pos], grad[neg]) + 4.0 * asy / twokbt * numpy.abs(f[pos]))[ok]
     if not ok.all() or (dev > ref + 1e-300).any():
         bad = int(numpy.argmax(dev - ref)) if ok.all() else int(numpy.argmin(ok))
-        chk.violation("ftcf:detailed_balance", "FTCorrelationFunction from %s at T=%g K: C(-w) = %r, exp(-w/kT) C(w) = %r at w = %r" %
-                      (what, p["T"], f[neg][bad], (e * f[pos])[bad], w[pos][bad]), "monitor", c)
+        chk.violation("ftcf:detailed_balance", "FTCorrelationFunction from %s (stored T %r, temperature argument %r): C(-w) = %r, "
+                      "exp(-w/kT) C(w) = %r at w = %r for the requested T = %g K" %
+                      (what, p.get("T"), targ, f[neg][bad], (e * f[pos])[bad], w[pos][bad], Tj), "monitor", c)
     # oracle relation used by the theorem: tanh(x) = (1-e)/(1+e), e = exp(-2x); tanh odd
     x = w[pos] / twokbt
     th = numpy.tanh(x)
@@ -416,7 +490,33 @@ def run_sd(chk, c):
         chk.violation("oracle:tanh", "numpy.tanh(x) differs from (1-e)/(1+e), e = exp(-2x), or is not odd", "monitor", c)
     if (f[pos][ok] < 0).any() or (f[neg][ok] < 0).any():
         chk.violation("ftcf:negative", "FTCorrelationFunction from %s has negative values" % what, "monitor", c)
-    chk.case(c, True)
+    # time-domain route: the correlation function at the requested temperature, transformed back to frequencies
+    pint = sd.params[0] if isinstance(sd.params, (list, tuple)) else sd.params
+    decay = float(pint["cortime"]) if p["ftype"] == "OverdampedBrownian" else 2.0 / float(pint["gamma"])
+    resolved = (not c.get("dyadic")) and c["Nt"] * c["dt"] >= 5.0 * decay      # C(t) has decayed within the time axis
+    if resolved:
+        chk.count("sd:time_domain_route")
+        sd2 = make_sd()
+        cf = sd2.get_CorrelationFunction() if targ is None else sd2.get_CorrelationFunction(temperature=targ)
+        if cf.get_temperature() != Tj:
+            chk.violation("sd2cf:temperature", "CorrelationFunction from %s reports temperature %r, requested %r" %
+                          (what, cf.get_temperature(), Tj), "monitor", c)
+        cwf = cf.get_Fourier_transform()
+        wf = numpy.array(cwf.axis.data)
+        cwd = numpy.real(numpy.array(cwf.data))
+        j0 = int(numpy.argmin(numpy.abs(wf)))
+        mm = min(j0, len(wf) - 1 - j0)
+        pp = numpy.arange(j0 + 1, j0 + mm + 1)
+        nn = 2 * j0 - pp
+        sel = wf[pp] < 8.0 * (twokbt / 2.0)          # where exp(-w/kT) is not negligible
+        if sel.any():
+            defect = numpy.abs(cwd[nn][sel] - numpy.exp(-wf[pp][sel] / (twokbt / 2.0)) * cwd[pp][sel]).max() / (numpy.abs(cwd[pp]).max() + 1e-300)
+            chk.extra["max_sd2cf_defect"] = max(chk.extra.get("max_sd2cf_defect", 0.0), float(defect))
+            if defect > 5e-3:      # largest value measured on resolved axes: 5e-4
+                chk.violation("sd2cf:detailed_balance", "Fourier transform of the CorrelationFunction from %s (stored T %r, temperature "
+                              "argument %r) violates C(-w) = exp(-w/kT) C(w) for the requested T = %g K: relative defect %g" %
+                              (what, p.get("T"), targ, Tj, defect), "monitor", c)
+    chk.case({k: v for k, v in c.items() if not k.startswith("_")}, True)
 
 
 # ------------------------------------------------------------------ run
@@ -491,12 +591,22 @@ def main():
         cases = [rep["input"]] if isinstance(rep.get("input"), dict) and "kind" in rep["input"] else []
     else:
         r = cm.rng(PID)
-        nss, nfo, nrf, nfoe, nsd = (400, 120, 40, 12, 40) if args.tier == "quick" else (4000, 1000, 300, 80, 300)
+        nss, nfo, nrf, nfoe, nsd = (400, 120, 40, 12, 60) if args.tier == "quick" else (4000, 1000, 300, 80, 300)
         cases = [{"kind": "ss", "Na": 3, "Nk": 1, "KI": [[[0, 1, 1], [1, 0, 1], [1, 1, 0]]], "cc": [[[0, 3, -2], [4, 0, 5], [-7, 6, 0]]],
                   "RR0": [[0] * 3] * 3, "rtol": 2.5, "wrapper": False}]
+        # composite baths (list of parameter sets / in-place addition) and a temperature argument overriding a stored one
+        for how in ("list", "add", "add_first"):
+            cases.append({"kind": "rf", "tensor": True, "sys": {
+                "mols": [{"e": 10000.0, "reorg": 20.0, "cortime": 200.0, "how": how,
+                          "extra": [{"ftype": "OverdampedBrownian", "reorg": 30.0, "cortime": 50.0}]},
+                         {"e": 10150.0, "reorg": 20.0, "cortime": 200.0, "how": how,
+                          "extra": [{"ftype": "UnderdampedBrownian", "reorg": 15.0, "freq": 200.0, "gamma": 40.0}]}],
+                "coup": [[0, 1, 80.0]], "T": 300.0, "Nt": 2000, "dt": 1.0, "matsubara": 10}})
+        cases.append({"kind": "sd", "params": {"ftype": "OverdampedBrownian", "reorg": 30.0, "cortime": 100.0, "T": 300.0},
+                      "Nt": 1000, "dt": 1.0, "dyadic": False, "mode": "override", "Treq": 77.0})
         cases += [gen_ss(r, k) for k in range(nss)] + [gen_fo(r, k) for k in range(nfo)]
         for k in range(nrf):
-            cases.append({"kind": "rf", "sys": gen_sys(r), "tensor": k % 3 == 0})
+            cases.append({"kind": "rf", "sys": gen_sys(r), "tensor": k % 2 == 0})
         for k in range(nfoe):
             sy = gen_sys(r, low_t=False)
             # detailed balance of Foerster rates rests on the KMS symmetry of C(t): with the default 10 Matsubara terms it is
